@@ -193,7 +193,16 @@ func body(s *simrt.Sim, tier string) {
 		}
 	}
 	for i := 0; i < nwrites; i++ {
-		s.Sleep(time.Duration(1+s.Choose(3, "gap")) * time.Nanosecond) // two Writes never read the same nanosecond (recorded assumption)
+		// usually the clock moves between two Writes; one time in eight it does not, and the second Write reads the very
+		// nanosecond the first one named its version directory after: it may then refuse (an error, nothing changed),
+		// it must not touch the live version
+		sameNano := false
+		if g := s.Choose(8, "gap"); g == 0 && i > 0 {
+			sameNano = true
+			s.Probe("same-nanosecond-write")
+		} else {
+			s.Sleep(time.Duration(1+g%3) * time.Nanosecond)
+		}
 		pending := i
 		h := &hook{s: s, faultStep: -1, check: check, renamed: func() {
 			current = pending
@@ -262,6 +271,9 @@ func body(s *simrt.Sim, tier string) {
 		}
 		if h.faultStep > 0 && h.fired == "" {
 			faultsLeft-- // the chosen step does not exist in this Write: no fault
+		}
+		if err != nil && sameNano && errors.Is(err, os.ErrExist) && current != pending {
+			continue // refused: the version name was taken
 		}
 		if err != nil {
 			s.Fail("write-failed", fmt.Sprintf("Write #%d returned an error although no fault was injected into it\n%s", i, strings.Join(log, "\n")))
